@@ -311,6 +311,38 @@ pub fn run_op3(op: &str, a: &[&str]) -> Option<String> {
                 }
             })
         }
+        // scopes_d <n> : the same list, reported as (well-formedness per C16, digest) -- for large n
+        "scopes_d" => {
+            let n: u32 = a[0].parse().unwrap();
+            Some(match guarded(|| crate::scope::calculate_scopes(n)) {
+                None => "panic".to_string(),
+                Some(v) => {
+                    let valid = |t: u8, r: u8| (t < r && r < 49) || (t, r) == (48, 49);
+                    let mut wf = v.len() == n as usize && n >= 1;
+                    let mut h: u64 = 0xcbf29ce484222325;
+                    for (k, s) in v.iter().enumerate() {
+                        if !valid(s.turn_from, s.river_from) || !valid(s.turn_to, s.river_to) || (s.turn_to, s.river_to) < (s.turn_from, s.river_from) {
+                            wf = false;
+                        }
+                        if k == 0 && (s.turn_from, s.river_from) != (0, 1) {
+                            wf = false;
+                        }
+                        if k > 0 && (v[k - 1].turn_to, v[k - 1].river_to) != (s.turn_from, s.river_from) {
+                            wf = false;
+                        }
+                        for x in [s.turn_from, s.river_from, s.turn_to, s.river_to] {
+                            h = (h ^ x as u64).wrapping_mul(0x100000001b3);
+                        }
+                    }
+                    if let Some(l) = v.last() {
+                        if (l.turn_to, l.river_to) != (48, 49) {
+                            wf = false;
+                        }
+                    }
+                    format!("ok wf={} digest={}", wf as u8, h)
+                }
+            })
+        }
         // scopes_e2e <n> : per-scope showdown counts and win tallies of the real evaluator add up to the unscoped run
         "scopes_e2e" => {
             let n: u32 = a[0].parse().unwrap();
